@@ -6,7 +6,7 @@ use super::{Judged, Property, Tier};
 use crate::rng::{mix, Rng};
 use crate::scenario::*;
 use crate::trace::*;
-use crate::wire::{self, Name, Rec};
+use crate::wire::{self, Msg, Name, Rec};
 
 pub struct C17;
 
@@ -73,6 +73,17 @@ impl Property for C17 {
         let base = ["printer.local.", "Media-Box.local.", "NAS.local."][rng.below(3) as usize];
         let peer_spelling = variant(&mut rng, base);
         let hn = Name::from_dotted(&peer_spelling);
+        // how unsolicited address records travel: alone, or inside the announcement of a service of another type on that
+        // host (its PTR leads the answer section; the packet is still for us because it carries an address of the host)
+        let wrap = |rng: &mut Rng, recs: &[Rec]| -> Msg {
+            if rng.below(3) != 0 {
+                return announce(recs);
+            }
+            let mut m = Msg::response();
+            m.answers.push(Rec::ptr(&Name::from_dotted("_workstation._tcp.local."), &Name::from_dotted("ws._workstation._tcp.local."), 4500));
+            m.answers.extend(recs.iter().cloned());
+            m
+        };
         // peers: one per segment, same host name (a multi-homed host)
         let ttl = [1u32, 2, 5, 10, 60, 120][rng.below(6) as usize];
         let mut t_last = 0u64;
@@ -99,11 +110,11 @@ impl Property for C17 {
             let mut t = 300 + rng.below(3000);
             for _ in 0..rng.below(4) {
                 match rng.below(5) {
-                    0 => s.op(t, Op::PeerSend { p: pi, v4: true, sport: 5353, msg: announce(&recs), to: Dest::Mcast }),
+                    0 => s.op(t, Op::PeerSend { p: pi, v4: true, sport: 5353, msg: wrap(&mut rng, &recs), to: Dest::Mcast }),
                     1 => {
                         // new address, with or without cache-flush
                         let r = Rec::a(&hn, ip4(&format!("192.168.{}.{}", 1 + k, 70 + rng.below(20))), ttl, rng.bool());
-                        s.op(t, Op::PeerSend { p: pi, v4: true, sport: 5353, msg: announce(&[r.clone()]), to: Dest::Mcast });
+                        s.op(t, Op::PeerSend { p: pi, v4: true, sport: 5353, msg: wrap(&mut rng, &[r.clone()]), to: Dest::Mcast });
                         if rng.bool() {
                             recs.push(r);
                             s.op(t, Op::PeerSet { p: pi, records: recs.clone() });
@@ -310,6 +321,38 @@ impl Property for C17 {
                                 "C17-R3",
                                 format!("address {} (if{}) of {} ended its life at t={} ({}) but no AddressesRemoved for it in [{}, {}]; removals seen: {:?}", ip, ifx, w.key, e, why.trim_start_matches("address-removed-by-"), e, e + sl, evs.iter().filter(|x| matches!(x.ev, EvKind::HRemoved(..))).map(|x| x.t).collect::<Vec<_>>()),
                             );
+                        }
+                    }
+                }
+            }
+            // ---- R4: refresh before expiry while the search is open: a query of the record's type at 80 % of its life
+            if clean && !tr.events.iter().any(|e| e.d == d && e.slot == 90) {
+                let end = tr.stats.sim_ms;
+                for &i in &addr_idx {
+                    let ty = m.recs[i].rec.ty;
+                    let q = queries_for(tr, d, &name, ty);
+                    let mut arr: Vec<&Arrival> = m.recs[i].arrivals.iter().collect();
+                    arr.sort_by_key(|a| (a.t, a.step));
+                    for (k, a) in arr.iter().enumerate() {
+                        if a.ttl <= 1 || !a.certain {
+                            continue;
+                        }
+                        let mark = a.t + a.ttl as u64 * 800;
+                        // superseded by a later copy on that interface, or cut short (goodbye, flush) before the mark?
+                        if arr.iter().skip(k + 1).any(|n| n.if_index == a.if_index && n.t <= mark + sl) {
+                            continue;
+                        }
+                        if !m.live_at(i, mark + sl, Some(a.if_index), Mode::Definitely, 0) || !m.live_at(i, a.t, Some(a.if_index), Mode::Definitely, 0) {
+                            continue;
+                        }
+                        // the search must be open from the arrival to the mark
+                        if !(w.open_step < a.step && w.open_t <= a.t && mark + sl + 2 < w.close_t && mark + sl + 2 < end) {
+                            continue;
+                        }
+                        j.judgements += 1;
+                        j.probe("refresh-mark-reached");
+                        if !q.iter().any(|x| x.t >= mark && x.t <= mark + sl) {
+                            j.fail("C17-R4", format!("address record {}:{} {:?} of {} received at t={} with TTL {} s on if{} was not refreshed: no query of that type in [{}, {}] (80 % of its life) while the search was open; queries of that type at {:?}", name.escaped(), wire::ty_name(ty), rec_ip(&m.recs[i].rec), w.key, a.t, a.ttl, a.if_index, mark, mark + sl, q.iter().map(|x| x.t).rev().take(8).rev().collect::<Vec<_>>()));
                         }
                     }
                 }
